@@ -7,6 +7,7 @@ From Coq Require Import NArith ZArith List.
 From ST Require Import Base.Outcome Num.Digits Fmt.Strtol Fmt.Parser Fmt.ParserProofs Fmt.DigitsFacts
   Fmt.Render Fmt.DriverProofs Fmt.Sinks Fmt.SinksProofs Fmt.RenderSpec Fmt.Utf8Sweep Fmt.RenderProofs Fmt.FieldProofs
   Fmt.ParseSpecProofs Fmt.FetchSpecProofs Fmt.WholeProofs.
+From ST Require Fmt.LeafBridge Gen.Leaf.
 Import ListNotations.
 Local Open Scope N_scope.
 
@@ -117,3 +118,15 @@ Example verdicts_inhabited :
   spec_format (Some [123; 125; 123]) [AInt true 32 1; AInt true 32 2] = VFail true false false /\
   spec_format (Some [123; 38; 50; 125]) [AInt true 32 1] = VFail false true false.
 Proof. exact verdict_examples. Qed.
+
+(* ---- tie by translation: pad_size (how much padding a numeric field gets) is translated from the clang AST of the
+   CURRENT headers into Gen/Leaf.v on every run (tools/leaf_translate.py); the model function used by every theorem
+   above computes the same value for every format_spec, size and numeric type, the digit-class and numeric-type codes
+   being the values the compiler gives the named constants ---- *)
+Theorem pad_size_matches_source : forall spec size nt,
+  (- 2 ^ 31 <= minimum_length spec < 2 ^ 31)%Z -> (Z.of_N size < 2 ^ 62)%Z ->
+  ST.Gen.Leaf.src_pad_size (minimum_length spec) (ST.Gen.Leaf.b2z (always_signed spec)) (ST.Gen.Leaf.b2z (class_prefix spec))
+    (ST.Fmt.LeafBridge.dcode (dclass spec)) (Z.of_N size) (ST.Fmt.LeafBridge.ncode nt)
+  = Z.of_N (pad_size spec size nt).
+Proof. exact ST.Fmt.LeafBridge.pad_size_matches_source. Qed.
+Print Assumptions pad_size_matches_source.
